@@ -195,7 +195,7 @@ def conform_engine(chk, items, name="engine", prefix="engine", quiet=False):
                  "  MaxCancel = 99", "  TimeoutMs <- MC_TimeoutMs", "  WallEpoch = 0",
                  "  Dev_MatchDoneWaiters = " + B(dev["match_done_waiters"]), "  Dev_WaitIndexOneBased = " + B(dev["wait_index_one_based"]),
                  "  Dev_NoHandlersUnvalidated = " + B(dev["no_handlers_unvalidated"]), "  Dev_ClockMix = " + B(dev["clock_mix"]),
-                 "  TrackLog = FALSE", "INIT TraceInit", "NEXT TraceNext"]
+                 "  MaxResume = 0", "  TrackLog = FALSE", "INIT TraceInit", "NEXT TraceNext"]
         (d / ("MC_te%d.cfg" % gi)).write_text("\n".join(lines) + "\n")
         f = d / "traces.json"
         f.write_text(json.dumps({"traces": [t for (t, _s) in traces]}))
@@ -330,7 +330,7 @@ MC_TimeoutMs == %d
 
 
 def mc_run(chk, name, prog, invariants, properties=(), ext_menu=(), max_ext=1, max_cancel=0, dev=None,
-           expect_violation=None, constraint="Bound", timeout=1200, track_log=False, fair=False):
+           expect_violation=None, constraint="Bound", timeout=1200, track_log=False, fair=False, max_resume=0):
     """TLC exhaustive check of Engine.tla on one scenario program."""
     d, dev, cfg = mc_module(chk, name, prog, ext_menu, max_ext, max_cancel, dev)
     B = lambda b: "TRUE" if b else "FALSE"
@@ -341,6 +341,7 @@ def mc_run(chk, name, prog, invariants, properties=(), ext_menu=(), max_ext=1, m
              "  Dev_WaitIndexOneBased = " + B(dev["wait_index_one_based"]),
              "  Dev_NoHandlersUnvalidated = " + B(dev["no_handlers_unvalidated"]),
              "  Dev_ClockMix = " + B(dev["clock_mix"]),
+             "  MaxResume = %d" % max_resume,
              "  TrackLog = " + B(track_log),
              ] + (["SPECIFICATION FairSpec"] if fair else ["INIT Init", "NEXT Next", "CONSTRAINT " + constraint])
     lines += ["INVARIANT " + i for i in invariants]
@@ -371,13 +372,28 @@ def mc_plans(chk, pid):
     q = chk.quick
     plans = {
         "C12": [("resumable", sc.resumable(2, 2, 3, 1), ["Inv_C12c"], [], {}),
-                ("waiter", sc.resumable_wait(), ["Inv_C12c"], [], {"ext_menu": [("Resp1", None), ("Resp", None)], "max_ext": 2})],
+                ("waiter", sc.resumable_wait(), ["Inv_C12c"], [], {"ext_menu": [("Resp1", None), ("Resp", None)], "max_ext": 2}),
+                # the PauseResume action of Engine.tla: the context is serialised and resumed at any quiescence point
+                ("pause_resume", sc.resumable(2, 2, 3, 1) if q else sc.resumable(2, 3, 3, 1), ["Inv_C12c", "Inv_C03a"],
+                 ["Act_C12_WorkKept", "Act_C12_QueuedAttemptsKept"], {"max_resume": 1, "replay": True}),
+                ("pause_resume_waiter", sc.resumable_wait(), ["Inv_C12c", "Inv_C03a", "Inv_C10"],
+                 ["Act_C12_WorkKept"], {"ext_menu": [("Resp1", None), ("Resp", None)], "max_ext": 2, "max_resume": 1, "replay": True}),
+                ("pause_resume_collect", sc.resumable(1, 3, 2, 0, 0, result="collected"), ["Inv_C12c", "Inv_C09"],
+                 ["Act_C12_WorkKept"], {"max_resume": 2}),
+                # strict forms the code does not meet today (recorded findings of C12): TLC must refute them
+                ("pause_resume_timers", sc.resumable(2, 2, 3, 1, 2), [], ["Act_C12_TimersKept"],
+                 {"max_resume": 1, "expect_violation": "Act_C12_TimersKept"}),
+                ("pause_resume_running_attempts", sc.resumable(2, 2, 3, 2), [], ["Act_C12_RunningAttemptsKept"],
+                 {"max_resume": 1, "expect_violation": "Act_C12_RunningAttemptsKept"})],
         "C31": [("fanout_timeout", sc.fanout(2, 2, 2, 5, 1, timeout=8) if q else sc.fanout(2, 3, 2, 5, 1, timeout=8), ["Inv_C31", "Inv_C04"], [], {"max_cancel": 1}),
                 ("pipeline", sc.pipeline(retry_max=2, delay=3, fail_until=1, timeout=5), ["Inv_C31", "Inv_C04"], [], {"max_cancel": 1})],
         "C02": [("overlap", sc.overlap(1, 1, 2), ["Inv_C02"], [], {"ext_menu": [("A", None), ("D", None)], "max_ext": 1, "replay": True}),
                 ("targeted", sc.targeted(2), ["Inv_C02"], [], {"ext_menu": [("A", "c"), ("D", None)], "max_ext": 1, "replay": True}),
                 ("wait_accept", sc.wait_accept(), ["Inv_C02"], [], {"ext_menu": [("Resp", None)], "max_ext": 2}),
-                ("overlap_retry", sc.overlap_retry(1, 1, 2), ["Inv_C02"], [], {"replay": True})],
+                ("overlap_retry", sc.overlap_retry(1, 1, 2), ["Inv_C02"], [], {"replay": True}),
+                # across a PauseResume: the re-ping of a requirement waiter goes to its step alone
+                ("shared_input_resume", sc.waiter_shared_input(), ["Inv_C02"], ["Act_C12_WorkKept"],
+                 {"ext_menu": [("Resp1", None)], "max_ext": 1, "max_resume": 1, "replay": True})],
         "C05": [("attempts", sc.pipeline(retry_max=2, delay=2, fail_until=99), ["Inv_C06"], [], {}),
                 ("stop_delay", sc.pipeline(retry_max=None, stop_delay=3, delay=2, fail_until=99), [], [], {})],
         "C06": [("chain_asis", sc.pipeline(retry_max=4, wait=["chain", [5, 1]], fail_until=99), ["Inv_C06"], [],
@@ -397,16 +413,22 @@ def mc_plans(chk, pid):
                 ("waiter2", sc.waiter2(7), ["Inv_C10", "Inv_C10_Timeout", "Inv_C10_WaiterEvent"], [],
                  {"ext_menu": [("Resp", None)], "max_ext": 3, "replay": True}),
                 ("waiter_reqs", sc.waiter(None, {"k": 1}), ["Inv_C10", "Inv_C10_Timeout"], [],
-                 {"ext_menu": [("Resp", None), ("Resp1", None)], "max_ext": 2, "dev": {"match_done_waiters": False}})],
+                 {"ext_menu": [("Resp", None), ("Resp1", None)], "max_ext": 2, "dev": {"match_done_waiters": False}}),
+                ("waiter_reqs_resume", sc.waiter(None, {"k": 1}), ["Inv_C10", "Inv_C10_Timeout"], ["Act_C12_WorkKept"],
+                 {"ext_menu": [("Resp", None), ("Resp1", None)], "max_ext": 2, "max_resume": 1, "replay": True})],
         "C03": [("fanout_delay", sc.fanout(2, 2, 2, 5, 1) if q else sc.fanout(2, 3, 2, 5, 1), ["Inv_C03a"], ["Act_C03b_AsCoded"], {}),
                 ("fanout_delay_strict", sc.fanout(2, 2, 2, 5, 1), ["Inv_C03a"], ["Act_C03b"], {"expect_violation": "Act_C03b"}),
                 ("fanout_nodelay", sc.fanout(1, 3, None, 0, 0), ["Inv_C03a"], ["Act_C03b_AsCoded"], {"replay": True}),
                 ("liveness", sc.fanout(2, 2, 2, 5, 1, timeout=None), ["Inv_C03a"], ["Live_Progress"], {"fair": True}),
-                ("liveness_wait", sc.waiter(5), ["Inv_C03a"], ["Live_Progress"], {"fair": True, "ext_menu": [("Resp", None)], "max_ext": 1})],
+                ("liveness_wait", sc.waiter(5), ["Inv_C03a"], ["Live_Progress"], {"fair": True, "ext_menu": [("Resp", None)], "max_ext": 1}),
+                # a resumed run starts what the snapshot held, each step up to its worker limit
+                ("fanout_resume", sc.fanout(2, 3, None, 0, 0) if q else sc.fanout(3, 4, None, 0, 0), ["Inv_C03a"],
+                 ["Act_C03b_AsCoded", "Act_C12_WorkKept"], {"max_resume": 1, "replay": True})],
         "C04": [("fanout", sc.fanout(2, 3, 2, 0, 1, timeout=20) if q else sc.fanout(2, 4, 2, 5, 1, timeout=20), ["Inv_C04", "Inv_C31"], [], {"max_cancel": 1}),
                 ("double_stop", sc.double_stop(2), ["Inv_C04", "Inv_C31"], [], {"max_cancel": 1, "replay": True})],
         "C35": [("fanout", sc.fanout(2, 3, 2, 0, 1) if q else sc.fanout(2, 4, 2, 5, 1), ["Inv_C35"], [], {}),
-                ("waiter", sc.waiter(5), ["Inv_C35"], [], {"ext_menu": [("Resp", None)], "max_ext": 2, "replay": True})],
+                ("waiter", sc.waiter(5), ["Inv_C35"], [], {"ext_menu": [("Resp", None)], "max_ext": 2, "replay": True}),
+                ("fanout_resume", sc.fanout(2, 2, 2, 0, 1), ["Inv_C35"], [], {"max_resume": 1})],
         "C11": [("fanout", sc.fanout(2, 2, 2, 0, 1) if q else sc.fanout(2, 3, 2, 5, 1), ["Inv_C11"], [], {"track_log": True}),
                 ("waiter", sc.waiter(5), ["Inv_C11"], [], {"ext_menu": [("Resp", None)], "max_ext": 2, "track_log": True})],
         "C01": [("fanout", sc.fanout(2, 3, 2, 0, 1) if q else sc.fanout(2, 4, 2, 5, 1), ["Inv_C01", "Inv_C03a"], [], {"replay": q}),
@@ -441,7 +463,7 @@ def standard_run(chk, pid, families, kinds, key_of=None, nontrivial=None, extra=
             for (name, prog, inv, props, kw) in plans]
     # spec -> code: behaviours of Engine.tla (edge-covering paths of TLC's state graph) replayed on the real engine
     f_mc += [pool.submit(replay_model, chk, "%s_%s" % (pid, name), prog, kw.get("ext_menu", ()), kw.get("max_ext", 1),
-                         kw.get("max_cancel", 0), chk.pick(40, 400))
+                         kw.get("max_cancel", 0), chk.pick(40, 400), 60, kw.get("max_resume", 0))
              for (name, prog, inv, props, kw) in plans if kw.get("replay")]
     verdicts = f_obs.result()
     if f_conf:
@@ -538,7 +560,7 @@ def _no_times(bs):
     return out
 
 
-def replay_model(chk, name, prog, ext_menu=(), max_ext=1, max_cancel=0, max_paths=60, max_len=60):
+def replay_model(chk, name, prog, ext_menu=(), max_ext=1, max_cancel=0, max_paths=60, max_len=60, max_resume=0):
     """Dump the state graph of Engine.tla for `prog`, walk edge-covering paths, perform every environment action of a
     path on the REAL engine (the loop performs the internal actions itself) and compare the model's reducer state with
     the live runner state at every quiescence point.  Returns (paths, compared, mismatches)."""
@@ -551,7 +573,7 @@ def replay_model(chk, name, prog, ext_menu=(), max_ext=1, max_cancel=0, max_path
              "  MaxCancel = %d" % max_cancel, "  TimeoutMs <- MC_TimeoutMs", "  WallEpoch = 99000000",
              "  Dev_MatchDoneWaiters = " + B(dev["match_done_waiters"]), "  Dev_WaitIndexOneBased = " + B(dev["wait_index_one_based"]),
              "  Dev_NoHandlersUnvalidated = " + B(dev["no_handlers_unvalidated"]), "  Dev_ClockMix = " + B(dev["clock_mix"]),
-             "  TrackLog = FALSE", "INIT Init", "NEXT Next"]
+             "  MaxResume = %d" % max_resume, "  TrackLog = FALSE", "INIT Init", "NEXT Next"]
     (d / ("MC_%s.cfg" % name)).write_text("\n".join(lines) + "\n")
     dump = d / "graph"
     res = tlc.run(d / ("MC_%s.tla" % name), d / ("MC_%s.cfg" % name), workdir=chk.work, deadlock=False, coverage=False,
@@ -563,7 +585,7 @@ def replay_model(chk, name, prog, ext_menu=(), max_ext=1, max_cancel=0, max_path
     rng = random.Random(chk.seed)
     if len(paths) > max_paths:
         paths = rng.sample(paths, max_paths)
-    env_re = re.compile(r"^(WorkerFinishAt|ExtSend|ExtCancel|Advance)(?:\((.*)\))?$", re.S)
+    env_re = re.compile(r"^(WorkerFinishAt|ExtSend|ExtCancel|Advance|PauseResume)(?:\((.*)\))?$", re.S)
     compared = mism = 0
     first_mismatch = None
 
@@ -589,6 +611,9 @@ def replay_model(chk, name, prog, ext_menu=(), max_ext=1, max_cancel=0, max_path
                         keys = [k for k in s.rig.open_gates() if k[0] == t["step"] and k[1] == t["uid"]]
                         if not keys:
                             break                       # not realisable at this point on the real engine: stop this path
+                        # equal-valued events (a producer re-executed after a resume emits its events again): the
+                        # invocation in the model's worker slot
+                        keys.sort(key=lambda k: 0 if s.rig.wid_by_key.get(k, -1) == w_ else 1)
                         key = keys[0]
                         n = 0
                         while key in s.rig.open_gates() and n < 8:     # a body with several gates finishes in one model step
@@ -599,6 +624,9 @@ def replay_model(chk, name, prog, ext_menu=(), max_ext=1, max_cancel=0, max_path
                         s.apply(["send", mrec["ty"], "x%d" % s.ext_sent, mrec["target"], mrec["k"]])
                     elif act == "ExtCancel":
                         s.apply(["cancel"])
+                    elif act == "PauseResume":
+                        # ctx.to_dict -> JSON -> Context.from_dict -> run(ctx=...); the first run is abandoned
+                        s.resume_from(s.snapshot())
                     elif act == "Advance":
                         nt = s.loop.next_timer()
                         if nt is None:
